@@ -226,7 +226,9 @@ class workq:
         jobs = [self.id2job[jid] for jid in jobids]
         for j in jobs:
             j.finish_event.wait()
-            if j.drop:
+            if j.drop and self.id2job.get(j.jobid) is j:
+                # several clients may wait on a dropped job, and its id may have
+                # been re-added (after a kill) or dropped by the watchdog meanwhile
                 del self.id2job[j.jobid]
         return jobs
 
